@@ -1,17 +1,25 @@
 import FormulaicVerif.Proofs.C17Cover
 import FormulaicVerif.Proofs.C17Dot
+import FormulaicVerif.Proofs.C17Parts
 /-! # C17 — Required variables, name resolution order and '.' expansion are exact
 
 Property theorems only; helper lemmas are in `Proofs/C17*.lean`. Every `theorem` in this file is an
 obligation audited with `#print axioms`. The statements are about the executable models
-`Model/Variables.lean` (namespace `Model.Variables`), `Model/LayeredMapping.lean` (`Model.LMap`, the
-layered-mapping model of C19) and, for `.`, the parser model's `applyPlain` (`Model/Eval.lean`) —
-the functions the `c17` correspondence engine runs. Reference notions (`firstLayer`, `valueOf`,
+`Model/Variables.lean` (namespace `Model.Variables`: the expression language with `lambda` and the
+comprehensions, the breadth-first extraction with bound names, evaluation with local scopes, the
+reserved names, named layers, several parts), `Model/LayeredMapping.lean` (`Model.LMap`, the
+layered-mapping model of C19) and, for `.`, the parser model (`Model/Eval.lean`: `applyPlain`,
+`evalAst`; `Model/Parser.lean`: `parseTerms`) as packaged by `Model/Dot.lean` — the functions the
+`c17` correspondence engine runs. Reference notions (`firstLayer`, `valueOf`,
 `lookupAll`, `occs`, `usedColumns`, the side conditions) are in `Spec/Variables.lean`.
 
 Side conditions that the proofs force, and what they mean for the real code:
 * `AliasOK` (contract of `sanitize_variable_names`, checked per case by the harness);
 * `Unshadowed` (assumption: a reported name that a lower layer also binds is not "necessary");
+* `NotOnlyLazy` (assumption: necessity is claimed for names read in strict position — a name that is
+  mentioned only inside a lambda body or inside a comprehension need not be read at all: the closure
+  may never be called, the iterable may be empty); in the strict fragment it holds for every name
+  (`strict_fragment_all_strict`);
 * `PlainUse.noAttrOnData` / `BareVar` — finding C17-F2; `PlainUse.noDotQuoted` — finding C17-F3;
   `PlainBefore.noTransformNamed` — finding C17-F1 (rest of D15b); `PlainUse.noCollision`,
   `PlainBefore.noCallableData` — corner cases of the same kind (a column literally named `ns.v`
@@ -79,17 +87,38 @@ theorem reported_source_is_first_layer (L : Layers ν) :
   ⟨lookupFactor_eq L, fun c hok =>
     ⟨resolve_evalEnv L c hok, fun k hk => layerName_evalEnv L c hok k (aliasVal_none_of L _ k hk)⟩⟩
 
+/-- C17.1d  The source of every variable a successfully evaluated Python factor records: the variable
+is the (de-aliased) chain of a free `Name` node; and when it is a bare name without a dot, its source
+is the name of the first layer containing that name — the very layer the evaluation took the value
+of the identifier from (`resolve … = lookupAll …`, whose first three candidates are `firstLayer`). -/
+theorem python_variable_source (ops : Ops ν) (L : Layers ν) (f : PFactor) (c : PyCode)
+    (hk : f.kind = .python (some c)) (hok : AliasOK L c) (r : ν × List Var)
+    (h : evalFactor ops L f = .ok r) (u : Var) (hu : u ∈ r.2) :
+    ∃ o ∈ occs c.ast, u.name = unalias c.aliases o.chain ∧
+      resolve L (evalEnv L c.aliases) o.base = lookupAll L (unalias c.aliases o.base) ∧
+      (o.chain = o.base → root (unalias c.aliases o.base) = unalias c.aliases o.base →
+        u.source = match firstLayer L (unalias c.aliases o.base) with
+          | some (_, n) => n
+          | none => none) := by
+  rw [python_vars ops L f c hk r h] at hu
+  obtain ⟨o, ho, hn, hs⟩ := exprVariables_mem c _ u hu
+  refine ⟨o, ho, hn, resolve_evalEnv L c hok o.base, fun hc hroot => ?_⟩
+  rw [hs, hc, hroot]
+  exact layerName_evalEnv L c hok _ (aliasVal_unalias L c hok o.base)
+
 example : AliasOK (ν := Nat) ⟨[("a b", 1)], .dict [], [], []⟩
     ⟨.call (.name "log") [.name "a_b"] [], [("a_b", "a b")]⟩ :=
-  ⟨by decide, by intro a ha; simp at ha; subst ha; decide, by intro o ho; simp [occs, chainOcc, occsList, occsKws] at ho; rcases ho with h | h <;> subst h <;> decide⟩
+  ⟨by decide, by intro a ha; simp at ha; subst ha; decide,
+    by intro o ho; simp [occs, chainOcc, chain, occsList, occsKws] at ho; rcases ho with h | h <;> subst h <;> decide,
+    by decide⟩
 
 /-! ## 2. `_get_ast_node_variables` -/
 
 /-- C17.2a  Fuel sufficiency: with a budget of at least the number of nodes the breadth-first loop
 finishes, and its result does not depend on the budget. -/
 theorem ast_variables_fuel_sufficient (e : Expr) (aliases : List (String × String)) (fuel : Nat)
-    (h : e.size ≤ fuel) : bfs aliases fuel [.node e] [] = some (astVariables e aliases) := by
-  obtain ⟨r, hr⟩ := bfs_isSome aliases e.size [.node e] [] (by simp [itemsSize, Item.size])
+    (h : e.size ≤ fuel) : bfs aliases fuel [.node e []] [] = some (astVariables e aliases) := by
+  obtain ⟨r, hr⟩ := bfs_isSome aliases e.size [.node e []] [] (by simp [itemsSize, Item.size])
   have hast : astVariables e aliases = r := by simp only [astVariables, hr]
   rw [hast]
   have mono : ∀ (fuel : Nat) (q : List Item) (acc r : List Var),
@@ -107,14 +136,49 @@ theorem ast_variables_fuel_sufficient (e : Expr) (aliases : List (String × Stri
   | zero => exact hr
   | succ d ih => exact mono _ _ _ _ (ih (Nat.le_add_right _ _))
 
-/-- C17.2b  The extraction reports exactly one variable per `Name` node: the variables are those of
-the occurrences `occs e` (the attribute chain the name is the base of, role `callable` iff the
+/-- C17.2b  The extraction reports exactly one variable per FREE `Name` node: the variables are those
+of the occurrences `occs e` (the attribute chain the name is the base of, role `callable` iff the
 chain is called, aliases undone on the whole dotted name), and the bases of the occurrences are
-exactly the identifiers CPython looks up when evaluating `e`. -/
+exactly the free names of `e` — the identifiers CPython looks up in the evaluation namespace. -/
 theorem ast_variables_cover_names (e : Expr) (aliases : List (String × String)) :
     (∀ v, v ∈ astVariables e aliases ↔ ∃ o ∈ occs e, v = o.toVar aliases) ∧
     (∀ id, id ∈ freeNames e ↔ ∃ o ∈ occs e, o.base = id) :=
   ⟨astVariables_mem e aliases, fun id => mem_freeNames_iff id e⟩
+
+/-- C17.2c  Bound names are never reported. Every reported variable belongs to a free name of the
+expression (the breadth-first loop, which carries the bound names with every queued node, agrees
+with the textbook definition of free names, in which a binder removes its names from what it scopes
+over); a lambda parameter is not free in the lambda unless a default expression mentions it; a
+comprehension target is free in the comprehension only if the FIRST iterable mentions it. -/
+theorem bound_names_not_reported (e : Expr) (aliases : List (String × String)) :
+    (∀ v ∈ astVariables e aliases, ∃ o ∈ occs e, v = o.toVar aliases ∧ o.base ∈ freeNames e) ∧
+    (∀ ps ds body x, x ∈ ps → x ∈ freeNames (.lambda ps ds body) → x ∈ freeNamesList ds) ∧
+    (∀ k elts ts it ifs gs x, x ∈ ts ++ gensTargets gs →
+      x ∈ freeNames (.comp k elts (.mk ts it ifs :: gs)) → x ∈ freeNames it) := by
+  refine ⟨fun v hv => ?_, fun ps ds body x hx hf => ?_, fun k elts ts it ifs gs x hx hf => ?_⟩
+  · obtain ⟨o, ho, hvo⟩ := (astVariables_mem e aliases v).1 hv
+    exact ⟨o, ho, hvo, (mem_freeNames_iff o.base e).2 ⟨o, ho, rfl⟩⟩
+  · simp only [freeNames, List.mem_append, mem_without_iff] at hf
+    rcases hf with h | ⟨_, h⟩
+    · exact h
+    · have : ps.contains x = true := by simpa using hx
+      rw [this] at h; cases h
+  · have hc : (ts ++ gensTargets gs).contains x = true := by simpa using hx
+    simp only [freeNames, freeNamesGens, gensTargets, if_true, List.mem_append, mem_without_iff, hc] at hf
+    rcases hf with ⟨_, h⟩ | (h | ⟨_, h⟩) | h
+    · cases h
+    · exact h
+    · cases h
+    · exact absurd h (not_mem_freeNamesGens _ x hc gs)
+
+/- `{(lambda v, k=y: v + k + w)(x)}` and `{sum([a + b for a in x for b in a if b > c])}`: parameters
+and targets are not reported, the default `y`, the first iterable `x` and the free `w`, `c` are -/
+example : (astVariables (.call (.lambda ["v", "k"] [.name "y"]
+      (.binop "Add" (.binop "Add" (.name "v") (.name "k")) (.name "w"))) [.name "x"] []) []).map (·.name)
+    = ["x", "y", "w"] := by decide
+example : (astVariables (.call (.name "sum") [.comp "ListComp" [.binop "Add" (.name "a") (.name "b")]
+      [.mk ["a"] (.name "x") [], .mk ["b"] (.name "a") [.binop "Gt" (.name "b") (.name "c")]]] []) []).map (·.name)
+    = ["sum", "x", "c"] := by decide
 
 /-! ## 3. Evaluation and `NameError` -/
 
@@ -123,32 +187,55 @@ theorem eval_depends_on_free_names (ops : Ops ν) (ρ ρ' : String → Option ν
     (h : ∀ id ∈ freeNames e, ρ id = ρ' id) : eval ops ρ e = eval ops ρ' e :=
   eval_congr ops ρ ρ' e h
 
-/-- C17.3b  Whatever the operations do, an unbound free name makes the evaluation fail (the strict
-fragment evaluates every sub-expression). -/
+/-- C17.3b  Whatever the operations do, an unbound name in strict position makes the evaluation fail
+(strict = not inside a lambda body, not inside a comprehension apart from its first iterable), and in
+the strict fragment — no lambda, no comprehension — every free name is in strict position. -/
 theorem eval_fails_on_unbound_name (ops : Ops ν) (ρ : String → Option ν) (e : Expr) (x : String)
-    (hx : x ∈ freeNames e) (hu : ρ x = none) : ∃ err, eval ops ρ e = .error err :=
+    (hx : x ∈ strictNames e) (hu : ρ x = none) : ∃ err, eval ops ρ e = .error err :=
   eval_unbound ops ρ x hu e hx
 
+/-- C17.3b'  strict positions are free positions, and the only ones when there is no binder -/
+theorem strict_fragment_all_strict (e : Expr) :
+    (∀ x ∈ strictNames e, x ∈ freeNames e) ∧ (noBinders e = true → strictNames e = freeNames e) :=
+  ⟨fun x hx => strict_sub_free x e hx, strict_eq_free e⟩
+
 /-- C17.3c  `NameError` exactly when a free name is unbound: a `NameError` always names an unbound
-free name; and when the operations themselves cannot fail, the evaluation succeeds iff every free
-name is bound, and every failure is such a `NameError`. -/
+free name (never a lambda parameter or comprehension target); and when the operations themselves
+cannot fail, an evaluation in which every free name is bound succeeds or reads a comprehension
+target before it is bound (`UnboundLocalError`), a successful evaluation has every strict name
+bound, and every failure is such a `NameError` or an `UnboundLocalError`. -/
 theorem eval_nameError_iff (ops : Ops ν) (ρ : String → Option ν) (e : Expr) :
     (∀ x, eval ops ρ e = .error (.nameError x) → x ∈ freeNames e ∧ ρ x = none) ∧
     (OpsTotal ops →
-      ((∃ v, eval ops ρ e = .ok v) ↔ ∀ id ∈ freeNames e, ρ id ≠ none) ∧
-      (∀ err, eval ops ρ e = .error err → ∃ x, err = .nameError x ∧ x ∈ freeNames e ∧ ρ x = none)) := by
-  refine ⟨fun x h => eval_nameError_sound ops ρ x e h, fun ht => ⟨⟨?_, eval_total ops ht ρ e⟩, ?_⟩⟩
+      ((∀ id ∈ freeNames e, ρ id ≠ none) →
+        (∃ v, eval ops ρ e = .ok v) ∨ ∃ x, eval ops ρ e = .error (.unboundLocal x)) ∧
+      ((∃ v, eval ops ρ e = .ok v) → ∀ id ∈ strictNames e, ρ id ≠ none) ∧
+      (∀ err, eval ops ρ e = .error err →
+        (∃ x, err = .nameError x ∧ x ∈ freeNames e ∧ ρ x = none) ∨ ∃ x, err = .unboundLocal x)) := by
+  refine ⟨fun x h => eval_nameError_sound ops ρ x e h, fun ht => ⟨eval_total ops ht ρ e, ?_, ?_⟩⟩
   · rintro ⟨v, hv⟩ id hid hn
     obtain ⟨err, herr⟩ := eval_unbound ops ρ id hn e hid
     rw [hv] at herr; cases herr
   · intro err herr
-    obtain ⟨x, hx⟩ := eval_total_err ops ht ρ err e herr
-    subst hx
-    exact ⟨x, rfl, eval_nameError_sound ops ρ x e herr⟩
+    rcases eval_total_err ops ht ρ err e herr with ⟨x, hx⟩ | ⟨x, hx⟩
+    · subst hx
+      exact Or.inl ⟨x, rfl, eval_nameError_sound ops ρ x e herr⟩
+    · exact Or.inr ⟨x, hx⟩
 
 example : OpsTotal (ν := Nat) ⟨fun _ => 0, fun v _ => .ok v, fun f _ _ => .ok f, fun _ v => .ok v,
-    fun _ l _ => .ok l, fun v _ => .ok v, fun _ _ => 0⟩ :=
-  ⟨fun v _ => ⟨v, rfl⟩, fun f _ _ => ⟨f, rfl⟩, fun _ v => ⟨v, rfl⟩, fun _ l _ => ⟨l, rfl⟩, fun v _ => ⟨v, rfl⟩⟩
+    fun _ l _ => .ok l, fun v _ => .ok v, fun _ _ => 0, fun v => .ok [v], fun _ => .ok true,
+    fun n v => .ok (List.replicate n v), fun _ _ _ _ => 0⟩ :=
+  ⟨fun v _ => ⟨v, rfl⟩, fun f _ _ => ⟨f, rfl⟩, fun _ v => ⟨v, rfl⟩, fun _ l _ => ⟨l, rfl⟩, fun v _ => ⟨v, rfl⟩,
+    fun v => ⟨[v], rfl⟩, fun _ => ⟨true, rfl⟩, fun n v => ⟨List.replicate n v, rfl, by simp⟩⟩
+
+/-- C17.3d  Names inside a nested scope resolve like names at top level: the body of a lambda and the
+inner parts of a comprehension are evaluated in the enclosing environment extended by the local
+bindings, so a free name of a Python factor — wherever it is written — resolves through the
+back-quoted name it stands for, data > context > transforms > builtins. -/
+theorem nested_scope_resolution (L : Layers ν) (c : PyCode) (hok : AliasOK L c)
+    (locals : List String) (b : List (String × ν)) (x : String) (hx : locals.contains x = false) :
+    bindEnv locals b (resolve L (evalEnv L c.aliases)) x = lookupAll L (unalias c.aliases x) := by
+  rw [bindEnv_free _ _ _ _ hx, resolve_evalEnv L c hok]
 
 /-! ## 4. Sufficiency and necessity, semantically -/
 
@@ -172,10 +259,10 @@ theorem restrict_sufficient (ops : Ops ν) (L : Layers ν) (fs : List PFactor) (
     (fun k hk => valueOf_restrict L keep k (hin k hk))
     (fun k hk => lookupAll_restrict L keep k (hin k hk))
 
-/-- helper-free form of necessity used below: removing a key the formula reads, that no lower layer
-binds, makes the materialisation fail with the factor-evaluation error -/
+/-- C17.4b  Necessity, semantically: removing a key the formula reads in strict position, that no
+lower layer binds, makes the materialisation fail with the factor-evaluation error -/
 theorem remove_necessary (ops : Ops ν) (L : Layers ν) (fs : List PFactor) (v : String)
-    (hok : ∀ f ∈ fs, FactorOK L f) (hv : v ∈ fs.flatMap factorReads) (hu : Unshadowed L v) :
+    (hok : ∀ f ∈ fs, FactorOK L f) (hv : StrictRead fs v) (hu : Unshadowed L v) :
     ∃ cause, materialize ops (L.remove v) fs = .error (.factorEvaluation cause) := by
   obtain ⟨f, hf, hvf⟩ := List.mem_flatMap.1 hv
   have hok' : FactorOK (L.remove v) f := by
@@ -186,6 +273,45 @@ theorem remove_necessary (ops : Ops ν) (L : Layers ν) (fs : List PFactor) (v :
     · trivial
   exact materialize_fails ops _ fs (evalFactors_fails ops _ fs f hf
     (evalFactor_unbound ops _ f hok' v hvf (lookupAll_remove_self L v hu) (firstLayer_remove_self L v hu)))
+
+/-- C17.4c  In the strict fragment (no lambda, no comprehension in any factor) every read is a read
+in strict position. -/
+theorem strict_fragment_not_lazy (fs : List PFactor) (hs : ∀ f ∈ fs, FactorStrict f) (v : String) :
+    NotOnlyLazy fs v := by
+  intro hv
+  obtain ⟨f, hf, hvf⟩ := List.mem_flatMap.1 hv
+  refine List.mem_flatMap.2 ⟨f, hf, ?_⟩
+  have hfs := hs f hf
+  unfold FactorStrict at hfs
+  unfold factorReads at hvf
+  unfold factorStrictReads
+  split at hfs
+  · rename_i c hc
+    rw [hc] at hvf ⊢
+    simp only at hvf ⊢
+    rw [strict_eq_free c.ast hfs]; exact hvf
+  · cases hk : f.kind with
+    | lookup => rw [hk] at hvf; exact hvf
+    | literal => rw [hk] at hvf; exact hvf
+    | python oc =>
+      cases oc with
+      | none => rw [hk] at hvf; exact hvf
+      | some c => rename_i hne; exact absurd hk (hne c)
+
+/-- C17.4d  The reserved names. When a layer binds one of the names `stateful_eval` injects in front
+of the namespace (`Gen.reservedNames`, read off the live function), every Python factor is rejected
+with the factor-evaluation error (cause `RuntimeError`) whatever its expression — the injected
+objects never shadow a data column silently; looked-up factors are not affected. -/
+theorem reserved_names_rejected (ops : Ops ν) (L : Layers ν) (f : PFactor) (c : PyCode)
+    (hk : f.kind = .python (some c)) (r : String) (hr : r ∈ Gen.reservedNames) (hb : valueOf L r ≠ none)
+    (hnd : (c.aliases.map (·.1)).Nodup)
+    (hold : ∀ a ∈ c.aliases, a.1 ≠ a.2 → ∀ b ∈ c.aliases, b.2 ≠ a.1)
+    (hna : c.aliases.lookup r = none) :
+    evalFactor ops L f = .error (.factorEvaluation (.other "RuntimeError")) := by
+  rw [evalFactor_python ops L f c hk, reservedHit_of_bound L c.aliases r hr hb hnd hold hna]
+  rfl
+
+example : "__FORMULAIC_STATE__" ∈ Gen.reservedNames := by decide
 
 /-! ## 5. The reported sets -/
 
@@ -199,19 +325,20 @@ theorem required_sufficient (ops : Ops ν) (L : Layers ν) (fs : List PFactor)
   rw [restrict_sufficient ops L fs _ hok (fun k hk => cover_post ops L fs hok hplain vals vars hm k hk), hm]
   rfl
 
-/-- C17.5b  After materialisation: removing any reported variable that no lower layer binds and
-that is not the name of a dotted chain makes the materialisation fail with the factor-evaluation
-error. -/
+/-- C17.5b  After materialisation: removing any reported variable that no lower layer binds, that
+is not the name of a dotted chain and that is not mentioned only in lazily evaluated positions makes
+the materialisation fail with the factor-evaluation error. -/
 theorem required_necessary (ops : Ops ν) (L : Layers ν) (fs : List PFactor)
     (hok : ∀ f ∈ fs, FactorOK L f)
     (vals : List ν) (vars : List Var) (hm : materialize ops L fs = .ok (vals, vars))
-    (v : String) (hv : v ∈ specRequired vars) (hu : Unshadowed L v) (hb : BareVar fs v) :
+    (v : String) (hv : v ∈ specRequired vars) (hu : Unshadowed L v) (hb : BareVar fs v)
+    (hl : NotOnlyLazy fs v) :
     ∃ cause, materialize ops (L.remove v) fs = .error (.factorEvaluation cause) := by
   have hv' : v ∈ vars.map (·.name) := by
     simp only [specRequired, List.mem_map, List.mem_filter] at hv ⊢
     obtain ⟨u, ⟨hu1, _⟩, hu2⟩ := hv
     exact ⟨u, hu1, hu2⟩
-  exact remove_necessary ops L fs v hok (post_name_read ops L fs vals vars hm v hv' hb) hu
+  exact remove_necessary ops L fs v hok (hl (post_name_read ops L fs vals vars hm v hv' hb)) hu
 
 /-- C17.5c  Before materialisation (`Formula.required_variables`): under `PlainUse` and
 `PlainBefore` (no data column named like a transform or called inside Python code) the
@@ -224,15 +351,72 @@ theorem required_before_sufficient (ops : Ops ν) (L : Layers ν) (fs : List PFa
     (materialize ops (L.restrict (pre.map (·.name))) fs).map (·.1) = (materialize ops L fs).map (·.1) :=
   restrict_sufficient ops L fs _ hok (fun k hk => cover_pre L fs hplain hbefore pre hp k hk)
 
-/-- C17.5d  Before materialisation: removing any reported variable that no lower layer binds and
-that is not the name of a dotted chain makes the materialisation fail with the factor-evaluation
-error. -/
+/-- C17.5d  Before materialisation: removing any reported variable that no lower layer binds, that
+is not the name of a dotted chain and that is not mentioned only in lazily evaluated positions makes
+the materialisation fail with the factor-evaluation error. -/
 theorem required_before_necessary (ops : Ops ν) (L : Layers ν) (fs : List PFactor)
     (hok : ∀ f ∈ fs, FactorOK L f)
     (pre : List Var) (hp : formulaRequired fs = .ok pre)
-    (v : String) (hv : v ∈ pre.map (·.name)) (hu : Unshadowed L v) (hb : BareVar fs v) :
+    (v : String) (hv : v ∈ pre.map (·.name)) (hu : Unshadowed L v) (hb : BareVar fs v)
+    (hl : NotOnlyLazy fs v) :
     ∃ cause, materialize ops (L.remove v) fs = .error (.factorEvaluation cause) :=
-  remove_necessary ops L fs v hok (pre_name_read fs pre hp v hv hb) hu
+  remove_necessary ops L fs v hok (hl (pre_name_read fs pre hp v hv hb)) hu
+
+/-- C17.5e  Several parts (`y ~ a | b`, two-sided formulas: `ModelSpecs.required_variables` is the
+union of the parts' `variables_by_source['data']`, each read off the part's own structure after all
+factors of the formula have been evaluated together). Sufficiency: the materialisation succeeds, with
+the same factor values, on the data restricted to exactly that union. -/
+theorem parts_required_sufficient (ops : Ops ν) (L : Layers ν) (ps : List (List PFactor))
+    (hok : ∀ p ∈ ps, ∀ f ∈ p, FactorOK L f) (hplain : ∀ p ∈ ps, ∀ f ∈ p, FactorPlain L f)
+    (vals : List ν) (vars : List Var) (req : List String)
+    (hm : materializeParts ops L ps = .ok (vals, vars, req)) :
+    (materialize ops (L.restrict req) ps.flatten).map (·.1) = .ok vals := by
+  simp only [materializeParts] at hm
+  cases hf : materialize ops L ps.flatten with
+  | error e => rw [hf] at hm; cases hm
+  | ok r =>
+    obtain ⟨vals', vars'⟩ := r
+    rw [hf] at hm
+    simp only [Except.ok.injEq, Prod.mk.injEq] at hm
+    obtain ⟨h1, _, h3⟩ := hm
+    subst h1; subst h3
+    have hokf : ∀ f ∈ ps.flatten, FactorOK L f := fun f hf' => by
+      obtain ⟨p, hp, hfp⟩ := List.mem_flatten.1 hf'; exact hok p hp f hfp
+    rw [restrict_sufficient ops L ps.flatten _ hokf
+      (fun k hk => cover_parts ops L ps hok hplain ⟨_, hf⟩ k hk), hf]
+    rfl
+
+/-- C17.5f  Several parts, necessity: removing any member of the union that no lower layer binds,
+that is not the name of a dotted chain and that is not mentioned only in lazily evaluated positions
+makes the materialisation of the whole formula fail with the factor-evaluation error. -/
+theorem parts_required_necessary (ops : Ops ν) (L : Layers ν) (ps : List (List PFactor))
+    (hok : ∀ p ∈ ps, ∀ f ∈ p, FactorOK L f)
+    (vals : List ν) (vars : List Var) (req : List String)
+    (hm : materializeParts ops L ps = .ok (vals, vars, req))
+    (v : String) (hv : v ∈ req) (hu : Unshadowed L v) (hb : BareVar ps.flatten v)
+    (hl : NotOnlyLazy ps.flatten v) :
+    ∃ cause, materialize ops (L.remove v) ps.flatten = .error (.factorEvaluation cause) := by
+  simp only [materializeParts] at hm
+  cases hf : materialize ops L ps.flatten with
+  | error e => rw [hf] at hm; cases hm
+  | ok r =>
+    rw [hf] at hm
+    simp only [Except.ok.injEq, Prod.mk.injEq] at hm
+    obtain ⟨_, _, h3⟩ := hm
+    subst h3
+    have hokf : ∀ f ∈ ps.flatten, FactorOK L f := fun f hf' => by
+      obtain ⟨p, hp, hfp⟩ := List.mem_flatten.1 hf'; exact hok p hp f hfp
+    exact remove_necessary ops L ps.flatten v hokf (hl (parts_name_read ops L ps ⟨_, hf⟩ v hv hb)) hu
+
+/-- C17.5g  A part that consists of looked-up names only — such as a right-hand side made of `.`
+expansions and explicit columns — reports no variable other than those names: together with C17.6a
+(no expanded column is a left-hand-side variable) the required variables of such a right-hand part
+never include the response. -/
+theorem lookup_part_reports_its_names (ops : Ops ν) (L : Layers ν) (names : List String)
+    (vals : List ν) (vars : List Var)
+    (hm : materialize ops L (names.map (fun n => (⟨n, .lookup⟩ : PFactor))) = .ok (vals, vars)) :
+    ∀ v ∈ specRequired vars, v ∈ names :=
+  lookup_part_required ops L names vals vars hm
 
 /-! ## 6. The wildcard -/
 
@@ -261,13 +445,75 @@ theorem dot_operator_in_table (twosided multipart multistage : Bool) :
   cases twosided <;> cases multipart <;> cases multistage <;> decide
 
 
+/-- C17.6c  EVERY occurrence of `.` expands alike. The evaluation context is a value that each `.`
+node reads (nothing is consumed by the first occurrence): a `.` node evaluates to the expansion of
+C17.6a wherever it stands, and the value of a whole tree — any number of `.` nodes, inside
+parentheses, interactions, several right-hand parts — depends on the context only through that one
+list (two contexts with the same expansion give the same value for every tree). -/
+theorem dot_every_occurrence (cols used : List String) :
+    let dot : DotCtx := { available := some cols, usedLhs := used }
+    evalAst dot (.node Dot.dotOp []) = (Dot.expand cols used).map Val.set ∧
+    (∀ (dot' : DotCtx), applyPlain Dot.dotOp dot' [] = Dot.expand cols used →
+      ∀ a, evalAst dot' a = evalAst dot a) := by
+  refine ⟨?_, fun dot' h a => evalAst_dot_congr dot' _ (by rw [h]; rfl) a⟩
+  simp [evalAst, evalAst.evalArgs, Dot.dotOp, Dot.expand]
+
+/-- C17.6d  What `Formula.from_spec(formula, context=materializer.layered_context)` hands to the
+tree: the available variables are the keys of the layer called `data` (first occurrences, data
+order) and the left-hand-side variables are `Token.required_variables` of the tokens before the top
+level `~`, computed by `Model.Variables` from the CPython trees. -/
+theorem dot_context_of_formula {ν : Type} (norm : List Char → Except PyErr (List Char))
+    (codes : List (String × Option PyCode)) (L : Layers ν) (cs : List CharInfo)
+    (ts lhs : List Tok) (a : Ast)
+    (ht : getTokens {} (Dot.pyEnv norm codes L.available) cs = .ok (ts, lhs))
+    (ha : tokensToAst ({} : ParseCfg).table ts = .ok (some a)) :
+    parseTerms {} (Dot.pyEnv norm codes L.available) cs =
+      match evalAst { available := some (firstOcc (dataKeys L)),
+                      usedLhs := lhsUsed (lhs.map (Dot.ptokOf codes)) } a with
+      | .error e => .error e
+      | .ok v =>
+        let s := match v with | .struct _ => v | _ => mkStruct [] (some v)
+        match checkVal s with
+        | .error e => .error e
+        | .ok _ => .ok s := by
+  simp only [parseTerms, ht, ha, lhsVariables_pyEnv]
+  have : (Dot.pyEnv norm codes L.available).available = some (firstOcc (dataKeys L)) := available_eq L
+  rw [this]
+  rfl
+
+/-- C17.1c  Named-layer lookups on the materializer's context (`layered_context.data`, `.context`,
+`.transforms`; `named_layers`): the three names denote the three layers whatever the caller's context
+contains (a sub-layer of the context that is itself called `data` does not shadow the data layer);
+every other name is a named sub-layer of the caller's context or an `AttributeError`; and the
+variables available to `.` are the keys of the data layer. -/
+theorem named_layers_of_context {ν : Type} (L : Layers ν) :
+    getNamedLayer L.lm "data" = .ok (.lm (some "data") [] [.dict L.data]) ∧
+    getNamedLayer L.lm "context" = .ok (.lm (some "context") [] [L.context]) ∧
+    getNamedLayer L.lm "transforms" = .ok (.lm (some "transforms") [] [.dict L.transforms]) ∧
+    (∀ n, n ≠ "data" → n ≠ "context" → n ≠ "transforms" →
+      getNamedLayer L.lm n = match (namedLayers L.context).lookup n with
+        | some l => .ok l
+        | none => .error .attributeError) ∧
+    L.available = some (firstOcc (dataKeys L)) := by
+  refine ⟨?_, ?_, ?_, ?_, available_eq L⟩
+  · simp [getNamedLayer, namedLayers_lm]
+  · simp [getNamedLayer, namedLayers_lm]
+  · simp [getNamedLayer, namedLayers_lm]
+  · intro n h1 h2 h3
+    simp only [getNamedLayer, namedLayers_lm, h1, h2, h3, if_false]
+    rfl
+
+
 /-! ## Non-vacuity: a concrete instance that satisfies every hypothesis, and negative witnesses
 showing that each side condition is needed (all by evaluation of the model) -/
 section witnesses
 
 def ops0 : Ops Nat :=
   ⟨fun _ => 0, fun v _ => .ok (v + 100), fun f as _ => .ok (f + as.sum), fun _ v => .ok v,
-    fun _ l r => .ok (l + r), fun v _ => .ok v, fun _ vs => vs.sum⟩
+    fun _ l r => .ok (l + r), fun v _ => .ok v, fun _ vs => vs.sum, fun v => .ok [v, v + 1],
+    fun v => .ok (v != 0), fun n v => .ok (List.replicate n v),
+    -- a closure is "called" once, with every parameter bound to 0, when it is created
+    fun _ ps _ run => match run (ps.map (fun p => (p, 0))) with | .ok v => v | .error _ => 0⟩
 
 /-- data `x`, `C`, `a b`, `p.q`; context `LayeredMapping({u}, {w})` (the shape `capture_context()` produces); the generated
 transforms; builtin `float` -/
@@ -291,11 +537,12 @@ def fGood : List PFactor := [⟨"x", .lookup⟩, ⟨"log(`a b`) + u", .python (s
 /- the instance satisfies the hypotheses of C17.5a–d … -/
 set_option maxRecDepth 4000 in
 example : (∀ f ∈ fGood, FactorOK L0 f) ∧ (∀ f ∈ fGood, FactorPlain L0 f) ∧
-    (∀ f ∈ fGood, FactorPlainBefore L0 f) ∧ Unshadowed L0 "a b" ∧ BareVar fGood "a b" := by
-  have hA : AliasOK L0 cGood := ⟨by decide, by decide, by decide⟩
+    (∀ f ∈ fGood, FactorPlainBefore L0 f) ∧ Unshadowed L0 "a b" ∧ BareVar fGood "a b" ∧
+    NotOnlyLazy fGood "a b" := by
+  have hA : AliasOK L0 cGood := ⟨by decide, by decide, by decide, by decide⟩
   have hP : PlainUse L0 cGood := ⟨by decide, by decide, by decide⟩
   have hB : PlainBefore L0 cGood := ⟨by decide, by decide⟩
-  refine ⟨?_, ?_, ?_, ⟨by decide, by decide, by decide⟩, ?_⟩
+  refine ⟨?_, ?_, ?_, ⟨by decide, by decide, by decide⟩, ?_, ?_⟩
   · intro f hf; simp [fGood] at hf; rcases hf with h | h <;> subst h
     · trivial
     · exact hA
@@ -311,6 +558,7 @@ example : (∀ f ∈ fGood, FactorOK L0 f) ∧ (∀ f ∈ fGood, FactorPlain L0 
     · have : c = cGood := by simpa using hc.symm
       subst this
       revert o; decide
+  · intro _; decide
 
 /- … and behaves as the theorems say: reported before `{x, u, a b}` (the context name `u` is
 reported: documented over-approximation), after `{x, a b}`; sufficient; necessary -/
@@ -351,6 +599,38 @@ through to the context -/
 set_option maxRecDepth 4000 in
 example : failed (materialize ops0 ({ L0 with context := .lm none [] [.dict [("u", 4)], .lm none [] [.dict [("x", 7)]]] }.remove "x") fGood) = false ∧
     valsOf (materialize ops0 ({ L0 with context := .lm none [] [.dict [("u", 4)], .lm none [] [.dict [("x", 7)]]] }.remove "x") fGood) = some [7, 1007] := by decide
+
+/-- a bound name that is also a data column: `{float([x * u for x in `a b`])}` binds `x` locally; the data
+column `x` is neither read nor reported, before or after, and the data restricted to `a b` suffices -/
+def fScoped : List PFactor :=
+  [⟨"float([x * u for x in `a b`])", .python (some ⟨.call (.name "float")
+    [.comp "ListComp" [.binop "Mult" (.name "x") (.name "u")] [.mk ["x"] (.name "a_b") []]] [],
+    [("a_b", "a b")]⟩)⟩]
+set_option maxRecDepth 4000 in
+example : namesOf (formulaRequired fScoped) = some ["a b", "u"] ∧
+    reqOf (materialize ops0 L0 fScoped) = some ["a b"] ∧ usedColumns L0 fScoped = ["a b"] ∧
+    valsOf (materialize ops0 (L0.restrict ["a b"]) fScoped) = valsOf (materialize ops0 L0 fScoped) ∧
+    failed (materialize ops0 (L0.remove "a b") fScoped) = true ∧
+    failed (materialize ops0 (L0.remove "x") fScoped) = false := by decide
+
+/-- `NotOnlyLazy` is needed: `{(lambda v: v + w)(x)}` mentions the context name `w` only inside the
+lambda body; with operations that never run the closure the evaluation succeeds without it (`w` is
+reported before materialisation: a name in a lazy position need not be necessary) -/
+def opsNoCall : Ops Nat := { ops0 with closure := fun _ _ _ _ => 0 }
+def fLazy : List PFactor :=
+  [⟨"(lambda v: v + w)(x)", .python (some ⟨.call (.lambda ["v"] [] (.binop "Add" (.name "v") (.name "w")))
+    [.name "x"] [], []⟩)⟩]
+set_option maxRecDepth 4000 in
+example : namesOf (formulaRequired fLazy) = some ["x", "w"] ∧
+    (fLazy.flatMap factorStrictReads = ["x"]) ∧ (fLazy.flatMap factorReads = ["w", "x"]) ∧
+    failed (materialize opsNoCall { L0 with context := .dict [] } fLazy) = false ∧
+    failed (materialize opsNoCall ({ L0 with context := .dict [] }.remove "x") fLazy) = true := by decide
+
+/- a reserved name as a data column: the Python factor is rejected, the looked-up factor is not -/
+set_option maxRecDepth 4000 in
+example : failed (materialize ops0 { L0 with data := L0.data ++ [("__FORMULAIC_SPEC__", 7)] } fGood) = true ∧
+    failed (materialize ops0 { L0 with data := L0.data ++ [("__FORMULAIC_SPEC__", 7)] } [⟨"x", .lookup⟩]) = false := by
+  decide
 
 /-- the wildcard on concrete input: `log(y) + `a b` ~ .` over columns x, y, C, `a b` -/
 example : (match Dot.expand ["x", "y", "C", "a b"]
